@@ -122,6 +122,7 @@ Proof.
   destruct (nth_error _ t) as [tk|]; [|constructor].
   destruct (status_eqb (s_status st) NOT_STARTED) eqn:E; [ns_list|].
   assert (s_status st <> NOT_STARTED) as Hn by (intros Q; rewrite Q in E; discriminate).
+  destruct (before_incomplete s i); [ns_list|].
   destruct (negb _); [ns_list|]. destruct (t_disabled tk); ns_list; apply ns_not; simpl; exact Hn.
 Qed.
 
